@@ -240,9 +240,18 @@ func (in *interp) newObject(si *structInfo) *object {
 	return o
 }
 
-// resetObject is what initialize does: all fields zero, choosy defaults.
-func (in *interp) resetObject(o *object) {
+// resetObject is what initialize does: all fields zero, choosy defaults. With
+// partial (WUFFS_INITIALIZE__LEAVE_INTERNAL_BUFFERS_UNINITIALIZED) only the
+// first-part fields are zeroed; sub-structs are initialized recursively.
+func (in *interp) resetObject(o *object, partial bool) {
 	for i, f := range o.si.fields {
+		if o.fields[i].v.k == vkObj {
+			in.resetObject(o.fields[i].v.obj, partial)
+			continue
+		}
+		if partial && f.priv {
+			continue
+		}
 		o.fields[i] = variable{typ: f.typ, v: in.zeroValue(f.typ)}
 	}
 	o.choosy = map[t.ID]*funcInfo{}
@@ -523,6 +532,9 @@ func (in *interp) invoke(caller *frame, fn *funcInfo, this *object, args []value
 			fn = alt
 		}
 	}
+	if fn.invalidC {
+		unsupp("public non-coroutine %s has a result and a checked argument: wuffs-c emits invalid C", fn.name)
+	}
 	if fn.pub {
 		// writeFuncImplSelfMagicCheck
 		bad := this.magic != magicOK
@@ -545,11 +557,6 @@ func (in *interp) invoke(caller *frame, fn *funcInfo, this *object, args []value
 				this.magic = magicDisabled
 				if fn.effect.Coroutine() {
 					return value{k: vkStatus, s: stBadArgument}
-				}
-				if fn.out != nil {
-					// The C generator emits `return wuffs_base__make_empty_struct()`
-					// here, which does not compile for a non-empty result.
-					unsupp("refined argument with a non-empty result (invalid C)")
 				}
 				return value{k: vkNone}
 			}
